@@ -2,6 +2,7 @@ import DnsVerif.Props.C11
 import DnsVerif.Props.C06
 import DnsVerif.Lemmas.RTEmbedAll
 import DnsVerif.Lemmas.RTElem
+import DnsVerif.Lemmas.RTShift2
 
 /-! # C10 — stand-alone element codecs agree with the message codec
 
@@ -11,9 +12,11 @@ stand-alone `DomainName::encode`). In the model the struct-level `encode()` wrap
 the same function on a fresh encoder (`encodeRR`), which the `enc.struct` / `enc.rr` streams check against
 the crate. Part 2: questions and records round-trip through their own codec pair (every one of the 46
 record types), and a record's stand-alone bytes are exactly what it occupies as the first record of a
-message whenever the stand-alone encoding contains no pointer (`b.length = rr.usize`); when it does contain
-a pointer the in-message bytes differ by the shift of pointer offsets (example at the end of
-Lemmas/RTEmbed.lean), which the correspondence run checks on the crate with a pointer-shift oracle. -/
+message whenever the stand-alone encoding contains no pointer (`b.length = rr.usize`, `elem_embeds`). Part 3: in
+general (`elem_embeds_shift`, every well-formed record, no size bound) the octets the record occupies after the
+twelve header octets are its stand-alone octets with the compression pointers at some positions `P` moved by
+exactly 12 and nothing else changed (`RTS.ShiftEq`); a question written first is embedded unchanged
+(`question_embeds`). The correspondence run checks the same rule on the crate with a pointer-shift oracle. -/
 
 namespace C10
 
@@ -53,5 +56,31 @@ theorem name_roundtrip_exact {n : Name} {b : Bytes} (hwf : WfName n) (h : encode
 theorem elem_embeds {m : Msg} {rr : RR} {rest : List RR} {b bm : Bytes} (hsm : EncLim.ShapedMsg m) (hwf : WfRR rr)
     (hq : m.qs = []) (han : m.an = rr :: rest) (h : encodeRR rr = .ok b) (hfull : b.length = rr.usize)
     (hm : encodeDns m = .ok bm) : ∃ tail, bm = EncLim.msgHeader m ++ b ++ tail := RT.elem_embeds hsm hwf hq han h hfull hm
+
+/-- **the embedding up to the shift of pointer offsets**: for every well-formed record, the octets it occupies as the
+first record of a message (after the twelve header octets) are its stand-alone octets except that the compression
+pointers at the positions `P` (each a backward pointer inside the element) point 12 octets further -/
+theorem elem_embeds_shift {m : Msg} {rr : RR} {rest : List RR} {b bm : Bytes} (hsm : EncLim.ShapedMsg m) (hwf : WfRR rr)
+    (hq : m.qs = []) (han : m.an = rr :: rest) (h : encodeRR rr = .ok b) (hm : encodeDns m = .ok bm) :
+    ∃ P b' tail, bm = EncLim.msgHeader m ++ b' ++ tail ∧ RTS.ShiftEq P 12 b b' :=
+  RTS.elem_embeds_shift_wf hsm hwf hq han h hm
+
+/-- the same for records that are only shaped like their type (no well-formedness), when the element is short enough
+for the insertion guard `offset ≤ 0x3FFF` to agree in both runs (needed: counterexample in Lemmas/RTShift.lean) -/
+theorem elem_embeds_shift_small {m : Msg} {rr : RR} {rest : List RR} {b bm : Bytes} (hsm : EncLim.ShapedMsg m)
+    (hq : m.qs = []) (han : m.an = rr :: rest) (h : encodeRR rr = .ok b) (hsmall : b.length + 12 ≤ 0x4000)
+    (hm : encodeDns m = .ok bm) : ∃ P b' tail, bm = EncLim.msgHeader m ++ b' ++ tail ∧ RTS.ShiftEq P 12 b b' :=
+  RTS.elem_embeds_shift_of_shaped hsm hq han h hsmall hm
+
+/-- the first question of a message is written exactly as `Question::encode` writes it -/
+theorem question_embeds {m : Msg} {q : Question} {rest : List Question} {b bm : Bytes} (hsm : EncLim.ShapedMsg m)
+    (hq : m.qs = q :: rest) (h : encodeQuestion q = .ok b) (hm : encodeDns m = .ok bm) :
+    ∃ tail, bm = EncLim.msgHeader m ++ b ++ tail := RTS.question_embeds hsm hq h hm
+
+/-- message decoder and element decoder agree on the record's value, pointers or not -/
+theorem elem_codecs_agree {m : Msg} {rr : RR} {rest : List RR} {b bm : Bytes} (hwf : WfMsg m)
+    (han : m.an = rr :: rest) (h : encodeRR rr = .ok b) (hm : encodeDns m = .ok bm) :
+    ∃ m' d rr' d' r1, decodeDns bm = .ok (m', d) ∧ decodeRR b = .ok (rr', d') ∧ m'.an[0]? = some r1 ∧
+      r1.norm = rr'.norm := RT.elem_codecs_agree hwf han h hm
 
 end C10
